@@ -1374,6 +1374,27 @@ def _getattr(obj, name, *default):
         raise
 
 
+def _setattr(obj, name, value):
+    if isinstance(obj, Inst):
+        if not obj._mutable:
+            raise Finding(f"in-place setattr of field {name!r} on an immutable module {obj.cls.name}")
+        obj.fields[name] = value
+        return None
+    raise Top(f"setattr on {type(obj).__name__}")
+
+
+def _issubclass(c, cls):
+    if isinstance(cls, tuple):
+        return any(_issubclass(c, x) for x in cls)
+    if isinstance(c, ClassModel):
+        return c.is_subclass_of(cls) if isinstance(cls, (ClassModel, ExternalClass)) else (cls is object)
+    if isinstance(c, type) and isinstance(cls, type):
+        return issubclass(c, cls)
+    if isinstance(c, (ExternalClass, type)):
+        return c is cls
+    raise Top(f"issubclass on {c!r}")
+
+
 def _hasattr(obj, name):
     try:
         _getattr(obj, name)
@@ -1619,7 +1640,7 @@ def make_world_externals(world_ref):
         range=_range, len=_len, tuple=tuple, list=list, dict=dict, set=set, frozenset=frozenset, enumerate=enumerate,
         zip=zip, isinstance=isinstance_, type=type_, int=_int, float=_float, str=str, bool=bool,
         max=_max, min=_min, any=any, all=all, sum=_sum_builtin, abs=_abs, sorted=sorted, reversed=reversed,
-        map=map, filter=filter, print=_print, getattr=_getattr, hasattr=_hasattr, callable=callable, slice=slice,
+        map=map, filter=filter, print=_print, getattr=_getattr, hasattr=_hasattr, setattr=_setattr, issubclass=_issubclass, callable=callable, slice=slice,
         ValueError=ValueError, NotImplementedError=NotImplementedError, KeyError=KeyError, IndexError=IndexError,
         AttributeError=AttributeError, TypeError=TypeError, RuntimeError=RuntimeError, AssertionError=AssertionError,
         Exception=Exception, UserWarning=UserWarning, DeprecationWarning=DeprecationWarning,
